@@ -59,17 +59,22 @@ const (
 	kindLibWindow            // lc.WindowedChainTip with slot lists
 	kindHarness              // harness ChainTip with an arbitrary finite float density
 	kindHarnessWindow        // harness tip implementing WindowBlockCounter
+	kindMixed                // set only: candidates of different kinds (see checkTipSet)
 )
 
-var kindName = []string{"lib_simple", "lib_windowed", "harness_plain", "harness_windowed"}
+var kindName = []string{"lib_simple", "lib_windowed", "harness_plain", "harness_windowed", "mixed"}
 
 type cand struct {
+	kind                    int
+	isNil                   bool // a nil ChainTip in the candidate list
 	slot, block             uint64
 	vrf                     []byte
 	blocksAfter, slotsAfter uint64   // kindLibSimple
 	dens                    float64  // harness kinds
 	slots                   []uint64 // windowed kinds
 	tip                     lc.ChainTip
+	vrfSnap                 []byte   // copy taken at construction (the tip shares c.vrf)
+	slotsSnap               []uint64 // copy of slots
 }
 
 type selCfg struct {
@@ -84,10 +89,16 @@ func (c selCfg) deep() bool { // "a fork deeper than k blocks"
 	return c.tipBlock > c.fork.BlockNumber && c.tipBlock-c.fork.BlockNumber > c.k
 }
 
-func (c *cand) desc(kind int) string {
+func (c *cand) desc(setKind int) string {
+	if c.isNil {
+		return "{nil}"
+	}
 	var sb strings.Builder
-	fmt.Fprintf(&sb, "{blk=%d slot=%d vrf=%x", c.block, c.slot, c.vrf)
-	switch kind {
+	fmt.Fprintf(&sb, "{blk=%d slot=%d vrf=%x", c.block, c.slot, c.vrfSnap)
+	if setKind == kindMixed {
+		sb.WriteString(" kind=" + kindName[c.kind])
+	}
+	switch c.kind {
 	case kindLibSimple:
 		fmt.Fprintf(&sb, " dens=%d/%d", c.blocksAfter, c.slotsAfter)
 	case kindHarness:
@@ -126,7 +137,11 @@ func sgn(x int) int {
 // refDensity: +1 if a is denser than b, -1, 0; ok=false where the statement
 // does not define the window density for this kind of tip.
 func refDensity(cfg selCfg, a, b *cand) (int, bool) {
-	switch cfg.kind {
+	if a.isNil || b.isNil || a.kind != b.kind {
+		// mixed pair: the metric the selector falls back to is not fixed by the statement
+		return 0, false
+	}
+	switch a.kind {
 	case kindLibSimple:
 		// density = blocks/slots after the fork (slots >= 1 by construction), compared exactly
 		l := new(big.Int).Mul(new(big.Int).SetUint64(a.blocksAfter), new(big.Int).SetUint64(b.slotsAfter))
@@ -170,6 +185,9 @@ func cmpU(a, b uint64) int {
 // refBasic: longer chain wins; ties go to the lower VRF output. Determined
 // only where the statement determines it: equal-length non-empty outputs.
 func refBasic(a, b *cand) (int, bool) {
+	if a.isNil || b.isNil {
+		return 0, false // the statement does not order absent tips
+	}
 	if a.block != b.block {
 		return cmpU(a.block, b.block), true
 	}
@@ -215,7 +233,12 @@ func genK(rt *rapid.T) uint64 {
 }
 
 func genCfg(rt *rapid.T) selCfg {
-	cfg := selCfg{kind: rapid.IntRange(0, 3).Draw(rt, "kind")}
+	cfg := selCfg{kind: rapid.IntRange(0, 8).Draw(rt, "kind")}
+	if cfg.kind == 8 {
+		cfg.kind = kindMixed
+	} else {
+		cfg.kind %= 4
+	}
 	cfg.k = genK(rt)
 	// fork block and current tip: depth around k
 	switch rapid.IntRange(0, 3).Draw(rt, "forkBlkClass") {
@@ -304,7 +327,10 @@ func genSet(rt *rapid.T, cfg selCfg, maxN int) []*cand {
 	pool := []uint64{F - 1, F, F + 1, F + 2, F + W - 1, F + W, F + W + 1, F + W/2, 0, 1, math.MaxUint64, math.MaxUint64 - 1}
 	cs := make([]*cand, n)
 	for i := range cs {
-		c := &cand{}
+		c := &cand{kind: cfg.kind}
+		if cfg.kind == kindMixed {
+			c.kind = rapid.IntRange(0, 3).Draw(rt, "candKind")
+		}
 		c.block = base + uint64(rapid.IntRange(0, spread).Draw(rt, "blkOff"))
 		if c.block < base {
 			c.block = math.MaxUint64
@@ -340,7 +366,7 @@ func genSet(rt *rapid.T, cfg selCfg, maxN int) []*cand {
 			c.vrf = mk(vlen)
 		}
 		// density information
-		switch cfg.kind {
+		switch c.kind {
 		case kindLibSimple:
 			c.slotsAfter = uint64(rapid.IntRange(1, 1<<20).Draw(rt, "slotsAfter"))
 			if rapid.Bool().Draw(rt, "smallDens") {
@@ -354,7 +380,7 @@ func genSet(rt *rapid.T, cfg selCfg, maxN int) []*cand {
 			if rapid.IntRange(0, 3).Draw(rt, "densRandom") == 0 {
 				c.dens = rapid.Float64Range(0, 1).Draw(rt, "densF")
 			}
-			if cfg.kind == kindHarness {
+			if c.kind == kindHarness {
 				c.tip = &hTip{c.slot, c.block, c.vrf, c.dens}
 				break
 			}
@@ -369,19 +395,53 @@ func genSet(rt *rapid.T, cfg selCfg, maxN int) []*cand {
 					c.slots[j] = pool[rapid.IntRange(0, len(pool)-1).Draw(rt, "slotPool")] + uint64(rapid.IntRange(0, 1).Draw(rt, "slotJitter"))
 				}
 			}
-			if cfg.kind == kindHarnessWindow {
+			if c.kind == kindHarnessWindow {
 				c.tip = &hWinTip{hTip{c.slot, c.block, c.vrf, c.dens}, c.slots}
 			} else {
 				c.tip = lc.NewWindowedChainTip(c.slot, c.block, c.vrf, append([]uint64(nil), c.slots...))
 			}
 		}
+		c.vrfSnap = append([]byte(nil), c.vrf...)
+		c.slotsSnap = append([]uint64(nil), c.slots...)
 		cs[i] = c
 	}
 	// occasionally the same tip twice
 	if n >= 3 && rapid.IntRange(0, 5).Draw(rt, "dup") == 0 {
 		cs[n-1] = cs[0]
 	}
+	// occasionally an absent (nil) tip among the candidates: Compare documents nil as least preferred
+	if n >= 3 && rapid.IntRange(0, 7).Draw(rt, "nilCand") == 0 {
+		cs[rapid.IntRange(0, n-1).Draw(rt, "nilPos")] = &cand{isNil: true, kind: cfg.kind}
+	}
 	return cs
+}
+
+// genAltCfg derives a second (fork point, current tip) for the same selector and the same
+// tips: another fork slot from the window edges and a tip height that usually flips the
+// deep/shallow routing.
+func genAltCfg(rt *rapid.T, cfg selCfg) selCfg {
+	alt := cfg
+	switch rapid.IntRange(0, 3).Draw(rt, "altForkSlot") {
+	case 0:
+		alt.fork.Slot = cfg.fork.Slot + uint64(rapid.IntRange(1, 3).Draw(rt, "altSlotUp"))
+	case 1:
+		alt.fork.Slot = cfg.fork.Slot - uint64(rapid.IntRange(1, 3).Draw(rt, "altSlotDown"))
+	case 2:
+		alt.fork.Slot = cfg.fork.Slot + cfg.window
+	default:
+		alt.fork.Slot = rapid.Uint64().Draw(rt, "altSlotAny")
+	}
+	switch rapid.IntRange(0, 2).Draw(rt, "altDepth") {
+	case 0: // flip the routing where possible
+		if cfg.deep() {
+			alt.tipBlock = alt.fork.BlockNumber
+		} else if alt.fork.BlockNumber+cfg.k+1 > cfg.k { // no wrap
+			alt.tipBlock = alt.fork.BlockNumber + cfg.k + 1
+		}
+	case 1:
+		alt.fork.BlockNumber = rapid.Uint64().Draw(rt, "altForkBlk")
+	}
+	return alt
 }
 
 // permutations calls f with every permutation of idx (Heap's algorithm).
@@ -423,89 +483,46 @@ type orderCheck struct {
 	tie  func(i, j int) bool                  // candidates tied on the primary criterion (block number); may be nil
 }
 
+// orderOpts selects the laws to check. Antisymmetry and agreement with the
+// reference are always checked.
+type orderOpts struct {
+	consistency bool // transitivity on all triples + maximality over all permutations
+}
+
+// rep41 reports a failure: rec.Fail inside rapid, rec.Violation in sweeps.
+type rep41 func(key, what string, cs any) bool
+
 func TestC41(t *testing.T) {
 	rec := evi.New(t, "C41", evi.Exploration,
-		"sets of 2..6 candidate tips of one kind (library SimpleChainTip with blocks/slots density, library WindowedChainTip with per-block slot lists, harness ChainTip with arbitrary finite float density, harness WindowBlockCounter tip) plus GenesisSelector fragment sets; block numbers clustered so that ties are frequent (also near 2^64), VRF outputs of one length from a 1..4-symbol alphabet (ties), optionally empty or of mixed lengths; k, fork point, current tip and window chosen around the deep-fork boundary (depth k-1,k,k+1,k+2, fork ahead of tip, values near 2^64) and window edges (fork, fork+1, fork+window, fork+window+1, wrap-around). For each set: antisymmetry on all ordered pairs, transitivity on all ordered triples, agreement with the reference order where the statement determines it, and for ALL permutations that Preferred/PreferredWithDensity returns a member no candidate beats. Non-trivial = at least 3 candidates and some pair tied on block number or (deep fork) ordered by density against length; distinct by the full set and configuration")
+		"sets of 2..6 candidate tips of one kind (library SimpleChainTip with blocks/slots density, library WindowedChainTip with per-block slot lists, harness ChainTip with arbitrary finite float density, harness WindowBlockCounter tip), optionally with a nil candidate, or of mixed kinds, plus GenesisSelector fragment sets; block numbers clustered so that ties are frequent (also near 2^64), VRF outputs of one length from a 1..4-symbol alphabet (ties), optionally empty or of mixed lengths; k, fork point, current tip and window chosen around the deep-fork boundary (depth k-1,k,k+1,k+2, fork ahead of tip, values near 2^64) and window edges (fork, fork+1, fork+window, fork+window+1, wrap-around). For each set: antisymmetry on all ordered pairs, transitivity on all ordered triples, agreement with the reference order where the statement determines it, and for ALL permutations that Preferred/PreferredWithDensity returns a member no candidate beats; every comparison matrix is computed again after the selection calls and after the same selector and tips were used with a second fork point / current tip (history independence), and candidate slices, tips, VRF bytes and slot lists must be unchanged. Plus an exhaustive sweep of all multisets of 3 candidates (and sets of 5 with two equal maxima) over a 32-type universe (2 heights x window counts 0/1/window-size/just-outside x VRF absent/00../00..01/ff..) for a shallow and a deep fork. Non-trivial = at least 3 candidates and some pair tied on block number or (deep fork) ordered by density against length; distinct by the full set and configuration")
 	defer rec.Finish()
 	rec.Assume(
-		"domain: homogeneous candidate sets (all tips of one Go type) and finite, non-NaN densities; mixed tip kinds, NaN densities and nil/typed-nil candidates are outside the generated domain",
-		"the statement fixes the VRF tie-break only for non-empty outputs of equal length; empty and mixed-length outputs are checked for order consistency (antisymmetry, transitivity, maximality) only",
+		"domain: finite, non-NaN densities; typed-nil candidates are outside the generated domain. Sets whose tips have different Go types are generated, but for a deep fork only antisymmetry, agreement on same-kind pairs, membership of the selected candidate and argument immutability are required of them (the documented per-pair fallback to the legacy ratio is not a transitive relation: see findings/C41.md)",
+		"the statement fixes the VRF tie-break only for non-empty outputs of equal length; empty and mixed-length outputs and nil candidates are checked for order consistency (antisymmetry, transitivity, maximality) only",
 		"for a library WindowedChainTip under a selector without a window the legacy density ratio is not defined by the statement: consistency only",
 		"SimpleChainTip densities are generated with 0 <= blocks <= slots <= 2^20, slots >= 1, so that the float64 ratio orders exactly like the rational",
 	)
 	maxN := 6
 
+	sweepC41(rec)
+
 	rec.Check(func(rt *rapid.T) {
+		rep := func(key, what string, cs any) bool { return rec.Fail(rt, key, what, cs) }
 		if rapid.IntRange(0, 5).Draw(rt, "family") == 0 {
-			checkGenesisFragments(rt, rec)
+			checkGenesisFragments(rt, rec, rep)
 			return
 		}
 		cfg := genCfg(rt)
 		cs := genSet(rt, cfg, maxN)
-		n := len(cs)
+		alt := genAltCfg(rt, cfg)
 		var sel *lc.PraosChainSelector
 		if cfg.window == 0 && rapid.Bool().Draw(rt, "plainCtor") {
 			sel = lc.NewPraosChainSelector(cfg.k)
 		} else {
 			sel = lc.NewPraosChainSelectorWithWindow(cfg.k, cfg.window)
 		}
-		setDesc := descSet(cfg, cs)
-		caseObj := map[string]any{"set": setDesc}
-
-		// routing predicate
-		if got := sel.IsDeepFork(cfg.fork, cfg.tipBlock); got != cfg.deep() {
-			rec.Fail(rt, "IsDeepFork", fmt.Sprintf("IsDeepFork(fork blk %d, tip blk %d) with k=%d = %v, statement: deeper than k blocks = %v", cfg.fork.BlockNumber, cfg.tipBlock, cfg.k, got, cfg.deep()), caseObj)
-		}
-		rec.Eval()
-
-		tips := make([]lc.ChainTip, n)
-		for i, c := range cs {
-			tips[i] = c.tip
-		}
-		indexOf := func(tp lc.ChainTip) (int, bool) {
-			for i := range tips {
-				if tips[i] == tp {
-					return i, true
-				}
-			}
-			return -1, false
-		}
-		checks := []orderCheck{
-			{
-				name: "Compare",
-				cmp:  func(i, j int) int { return sel.Compare(tips[i], tips[j]) },
-				ref:  func(i, j int) (int, bool) { return refCompare(cfg, cs[i], cs[j], false) },
-				pref: func(order []int) (int, bool) {
-					in := make([]lc.ChainTip, len(order))
-					for x, o := range order {
-						in[x] = tips[o]
-					}
-					return indexOf(sel.Preferred(in))
-				},
-			},
-			{
-				name: "CompareWithDensity",
-				cmp:  func(i, j int) int { return sel.CompareWithDensity(tips[i], tips[j], cfg.fork, cfg.tipBlock) },
-				ref:  func(i, j int) (int, bool) { return refCompare(cfg, cs[i], cs[j], true) },
-				pref: func(order []int) (int, bool) {
-					in := make([]lc.ChainTip, len(order))
-					for x, o := range order {
-						in[x] = tips[o]
-					}
-					return indexOf(sel.PreferredWithDensity(in, cfg.fork, cfg.tipBlock))
-				},
-			},
-		}
-		nontrivial := false
-		for ci := range checks {
-			checks[ci].tie = func(i, j int) bool { return cs[i].block == cs[j].block && cs[i] != cs[j] }
-		}
-		for _, oc := range checks {
-			stats := runOrderChecks(rt, rec, oc, n, fmt.Sprintf("%s:%s", oc.name, kindName[cfg.kind]), caseObj)
-			if stats.tieOnPrimary || stats.densityAgainstLength {
-				nontrivial = true
-			}
-		}
+		nontrivial := checkTipSet(rep, rec, sel, cfg, &alt, cs)
+		n := len(cs)
 		// classes
 		rec.Class("kind:" + kindName[cfg.kind])
 		rec.Class(fmt.Sprintf("n=%d", n))
@@ -514,6 +531,9 @@ func TestC41(t *testing.T) {
 			rec.Class("deep_fork")
 		} else {
 			rec.Class("shallow_fork")
+		}
+		if cfg.deep() != alt.deep() {
+			rec.Class("alt_config_flips_routing")
 		}
 		if cfg.tipBlock > cfg.fork.BlockNumber {
 			switch d := cfg.tipBlock - cfg.fork.BlockNumber; {
@@ -528,30 +548,170 @@ func TestC41(t *testing.T) {
 		if cfg.window == 0 {
 			rec.Class("no_window")
 		}
-		// density decides against length in some pair?
-		if cfg.deep() {
-			for i := 0; i < n; i++ {
-				for j := 0; j < n; j++ {
-					if d, ok := refDensity(cfg, cs[i], cs[j]); ok && d > 0 && cs[i].block < cs[j].block {
-						rec.Class("pair_denser_but_shorter")
-						nontrivial = true
-						i, j = n, n
-					}
-				}
+		for _, c := range cs {
+			if c.isNil {
+				rec.Class("set_with_nil_candidate")
+				break
 			}
 		}
 		if n >= 3 && nontrivial {
+			setDesc := descSet(cfg, cs)
 			rec.NonTrivial(setDesc, map[string]any{"set": setDesc})
 		}
 	})
 }
 
-type orderStats struct {
-	tieOnPrimary, densityAgainstLength bool
+// checkTipSet runs every C41 oracle on one candidate set under one selector:
+// the order laws and the reference for Compare and CompareWithDensity under cfg,
+// then (alt != nil) the same selector and tips under a second fork point / tip
+// height, then cfg again, requiring identical answers; finally the caller's
+// data (candidate slices, tips, VRF bytes, slot lists) must be unchanged.
+func checkTipSet(rep rep41, rec *evi.Recorder, sel *lc.PraosChainSelector, cfg selCfg, alt *selCfg, cs []*cand) (nontrivial bool) {
+	n := len(cs)
+	setDesc := descSet(cfg, cs)
+	caseObj := map[string]any{"set": setDesc}
+	kn := kindName[cfg.kind]
+
+	tips := make([]lc.ChainTip, n)
+	for i, c := range cs {
+		if !c.isNil {
+			tips[i] = c.tip
+		}
+	}
+	indexOf := func(tp lc.ChainTip) (int, bool) {
+		for i := range tips {
+			if tips[i] == tp {
+				return i, true
+			}
+		}
+		return -1, false
+	}
+	// selection over a permutation; the slice handed in must come back untouched
+	selectOver := func(order []int, call func(in []lc.ChainTip) lc.ChainTip, what string) (int, bool) {
+		in := make([]lc.ChainTip, len(order))
+		for x, o := range order {
+			in[x] = tips[o]
+		}
+		got := call(in)
+		for x, o := range order {
+			if len(in) != len(order) || in[x] != tips[o] {
+				rep("argument-mutated:candidates:"+what, fmt.Sprintf("%s changed the caller's candidate slice (position %d of permutation %v)", what, x, order), caseObj)
+				break
+			}
+		}
+		return indexOf(got)
+	}
+	mkChecks := func(c selCfg) []orderCheck {
+		return []orderCheck{
+			{
+				name: "Compare",
+				cmp:  func(i, j int) int { return sel.Compare(tips[i], tips[j]) },
+				ref:  func(i, j int) (int, bool) { return refCompare(c, cs[i], cs[j], false) },
+				pref: func(order []int) (int, bool) {
+					return selectOver(order, func(in []lc.ChainTip) lc.ChainTip { return sel.Preferred(in) }, "Preferred")
+				},
+			},
+			{
+				name: "CompareWithDensity",
+				cmp:  func(i, j int) int { return sel.CompareWithDensity(tips[i], tips[j], c.fork, c.tipBlock) },
+				ref:  func(i, j int) (int, bool) { return refCompare(c, cs[i], cs[j], true) },
+				pref: func(order []int) (int, bool) {
+					return selectOver(order, func(in []lc.ChainTip) lc.ChainTip { return sel.PreferredWithDensity(in, c.fork, c.tipBlock) }, "PreferredWithDensity")
+				},
+			},
+		}
+	}
+	optsFor := func(c selCfg, withDensity bool) orderOpts {
+		// candidates of different kinds on a deep fork: the per-pair metric fallback is not transitive by design
+		return orderOpts{consistency: !(cfg.kind == kindMixed && withDensity && c.deep())}
+	}
+	deepCheck := func(c selCfg) {
+		if got := sel.IsDeepFork(c.fork, c.tipBlock); got != c.deep() {
+			rep("IsDeepFork", fmt.Sprintf("IsDeepFork(fork blk %d, tip blk %d) with k=%d = %v, statement: deeper than k blocks = %v", c.fork.BlockNumber, c.tipBlock, c.k, got, c.deep()), caseObj)
+		}
+		rec.Eval()
+	}
+
+	deepCheck(cfg)
+	checks := mkChecks(cfg)
+	first := make([][][]int, len(checks))
+	for ci := range checks {
+		checks[ci].tie = func(i, j int) bool {
+			return !cs[i].isNil && !cs[j].isNil && cs[i].block == cs[j].block && cs[i] != cs[j]
+		}
+		st, m := runOrderChecks(rep, rec, checks[ci], n, fmt.Sprintf("%s:%s", checks[ci].name, kn), caseObj, optsFor(cfg, ci == 1))
+		first[ci] = m
+		if st.tieOnPrimary {
+			nontrivial = true
+		}
+	}
+	// an empty candidate list between the calls must not disturb anything
+	_ = sel.Preferred(nil)
+	_ = sel.PreferredWithDensity([]lc.ChainTip{}, cfg.fork, cfg.tipBlock)
+
+	// the same selector and tips under a second fork point / current tip
+	if alt != nil {
+		altObj := map[string]any{"set": descSet(*alt, cs), "first_config": setDesc}
+		deepCheck(*alt)
+		ac := mkChecks(*alt)[1]
+		runOrderChecksLight(rep, rec, ac, n, "alt-config:CompareWithDensity:"+kn, altObj, optsFor(*alt, true))
+		rec.Class("alt_config_checked")
+	}
+	// ... and the first configuration again: answers are a function of the arguments only
+	for ci := range checks {
+		for i := 0; i < n; i++ {
+			for j := 0; j < n; j++ {
+				if again := sgn(checks[ci].cmp(i, j)); again != first[ci][i][j] {
+					rep("history:"+checks[ci].name+":"+kn, fmt.Sprintf("%s(c%d,c%d) was %d, and %d when asked again after selection calls and calls with another fork point", checks[ci].name, i, j, first[ci][i][j], again), caseObj)
+				}
+				rec.Eval()
+			}
+		}
+	}
+	// the caller's data is unchanged
+	for i, c := range cs {
+		if c.isNil {
+			continue
+		}
+		if !bytes.Equal(c.vrf, c.vrfSnap) || !bytes.Equal(c.tip.VRFOutput(), c.vrfSnap) || c.tip.BlockNumber() != c.block || c.tip.Slot() != c.slot {
+			rep("argument-mutated:tip", fmt.Sprintf("candidate c%d changed during comparison/selection", i), caseObj)
+		}
+		for x := range c.slotsSnap {
+			if len(c.slots) != len(c.slotsSnap) || c.slots[x] != c.slotsSnap[x] {
+				rep("argument-mutated:tip-slots", fmt.Sprintf("slot list of candidate c%d changed", i), caseObj)
+				break
+			}
+		}
+		if w, ok := c.tip.(lc.WindowBlockCounter); ok && w.BlocksInWindow(cfg.fork.Slot, cfg.window) != func() uint64 {
+			if cfg.window == 0 {
+				return 0
+			}
+			return countInWindow(c.slotsSnap, cfg.fork.Slot, cfg.window)
+		}() {
+			rep("BlocksInWindow:"+kindName[c.kind], fmt.Sprintf("BlocksInWindow of candidate c%d disagrees with the interface contract after the calls", i), caseObj)
+		}
+	}
+	// density decides against length in some pair?
+	if cfg.deep() {
+		for i := 0; i < n && !nontrivial; i++ {
+			for j := 0; j < n; j++ {
+				if d, ok := refDensity(cfg, cs[i], cs[j]); ok && d > 0 && cs[i].block < cs[j].block {
+					rec.Class("pair_denser_but_shorter")
+					nontrivial = true
+					break
+				}
+			}
+		}
+	}
+	return nontrivial
 }
 
-// runOrderChecks checks one comparison function over one candidate set.
-func runOrderChecks(rt *rapid.T, rec *evi.Recorder, oc orderCheck, n int, keyBase string, caseObj map[string]any) (st orderStats) {
+type orderStats struct {
+	tieOnPrimary bool
+}
+
+// matrixOf evaluates the comparison on all ordered pairs.
+func matrixOf(rec *evi.Recorder, oc orderCheck, n int) [][]int {
 	m := make([][]int, n)
 	for i := range m {
 		m[i] = make([]int, n)
@@ -560,24 +720,25 @@ func runOrderChecks(rt *rapid.T, rec *evi.Recorder, oc orderCheck, n int, keyBas
 			rec.Eval()
 		}
 	}
-	withPair := func(i, j int) map[string]any {
-		o := map[string]any{"i": i, "j": j}
-		for k, v := range caseObj {
-			o[k] = v
-		}
-		return o
+	return m
+}
+
+func withPair(caseObj map[string]any, i, j int) map[string]any {
+	o := map[string]any{"i": i, "j": j}
+	for k, v := range caseObj {
+		o[k] = v
 	}
-	// antisymmetry (includes reflexivity: cmp(a,a) == 0)
+	return o
+}
+
+// pairLaws: antisymmetry (includes cmp(a,a) == 0) and agreement with the statement's order.
+func pairLaws(rep rep41, rec *evi.Recorder, oc orderCheck, m [][]int, keyBase string, caseObj map[string]any) {
+	n := len(m)
 	for i := 0; i < n; i++ {
 		for j := 0; j < n; j++ {
 			if m[i][j] != -m[j][i] {
-				rec.Fail(rt, "antisymmetry:"+keyBase, fmt.Sprintf("%s(c%d,c%d)=%d but %s(c%d,c%d)=%d", oc.name, i, j, m[i][j], oc.name, j, i, m[j][i]), withPair(i, j))
+				rep("antisymmetry:"+keyBase, fmt.Sprintf("%s(c%d,c%d)=%d but %s(c%d,c%d)=%d", oc.name, i, j, m[i][j], oc.name, j, i, m[j][i]), withPair(caseObj, i, j))
 			}
-		}
-	}
-	// agreement with the statement's order
-	for i := 0; i < n; i++ {
-		for j := 0; j < n; j++ {
 			want, ok := oc.ref(i, j)
 			if !ok {
 				rec.Class("pair_not_determined_by_statement")
@@ -588,75 +749,173 @@ func runOrderChecks(rt *rapid.T, rec *evi.Recorder, oc orderCheck, n int, keyBas
 				rec.Class("pair_reference_tie")
 			}
 			if m[i][j] != sgn(want) {
-				o := withPair(i, j)
-				rec.Fail(rt, "reference:"+keyBase, fmt.Sprintf("%s(c%d,c%d)=%d, the statement's order gives %d", oc.name, i, j, m[i][j], sgn(want)), o)
+				rep("reference:"+keyBase, fmt.Sprintf("%s(c%d,c%d)=%d, the statement's order gives %d", oc.name, i, j, m[i][j], sgn(want)), withPair(caseObj, i, j))
 			}
 		}
 	}
+}
+
+// selectionLaw: the candidate selected from the given arrival order is a member that nobody beats.
+func selectionLaw(rep rep41, rec *evi.Recorder, oc orderCheck, m [][]int, p []int, keyBase string, caseObj map[string]any, maximal bool) (int, bool) {
+	idx, ok := oc.pref(p)
+	rec.Eval()
+	if !ok {
+		rep("preferred-not-a-candidate:"+keyBase, fmt.Sprintf("selection over permutation %v returned a value that is not one of the candidates", p), caseObj)
+		return -1, false
+	}
+	if !maximal {
+		return idx, true
+	}
+	for c := range m {
+		if m[c][idx] > 0 {
+			o := withPair(caseObj, c, idx)
+			o["permutation"] = fmt.Sprint(p)
+			rep("preferred-not-maximal:"+keyBase, fmt.Sprintf("selection over permutation %v returned c%d, but %s(c%d,c%d) > 0", p, idx, oc.name, c, idx), o)
+			return idx, false
+		}
+		if want, ok := oc.ref(c, idx); ok && want > 0 {
+			o := withPair(caseObj, c, idx)
+			o["permutation"] = fmt.Sprint(p)
+			rep("preferred-beaten-in-reference:"+keyBase, fmt.Sprintf("selection over permutation %v returned c%d, but the statement prefers c%d", p, idx, c), o)
+			return idx, false
+		}
+	}
+	return idx, true
+}
+
+// runOrderChecksLight: pair laws plus the selection law for the given and the reversed order only.
+func runOrderChecksLight(rep rep41, rec *evi.Recorder, oc orderCheck, n int, keyBase string, caseObj map[string]any, opts orderOpts) {
+	m := matrixOf(rec, oc, n)
+	pairLaws(rep, rec, oc, m, keyBase, caseObj)
+	fwd, rev := make([]int, n), make([]int, n)
+	for i := range fwd {
+		fwd[i], rev[i] = i, n-1-i
+	}
+	selectionLaw(rep, rec, oc, m, fwd, keyBase, caseObj, opts.consistency)
+	selectionLaw(rep, rec, oc, m, rev, keyBase, caseObj, opts.consistency)
+}
+
+// runOrderChecks checks one comparison function over one candidate set.
+func runOrderChecks(rep rep41, rec *evi.Recorder, oc orderCheck, n int, keyBase string, caseObj map[string]any, opts orderOpts) (st orderStats, m [][]int) {
+	m = matrixOf(rec, oc, n)
+	pairLaws(rep, rec, oc, m, keyBase, caseObj)
 	// transitivity of the weak order on all ordered triples
-	for a := 0; a < n; a++ {
-		for b := 0; b < n; b++ {
-			for c := 0; c < n; c++ {
-				if m[a][b] >= 0 && m[b][c] >= 0 {
-					bad := m[a][c] < 0 || ((m[a][b] > 0 || m[b][c] > 0) && m[a][c] <= 0)
-					if bad {
-						o := withPair(a, b)
-						o["k"] = c
-						rec.Fail(rt, "transitivity:"+keyBase, fmt.Sprintf("%s: c%d>=c%d (%d), c%d>=c%d (%d) but cmp(c%d,c%d)=%d", oc.name, a, b, m[a][b], b, c, m[b][c], a, c, m[a][c]), o)
+	if opts.consistency {
+		for a := 0; a < n; a++ {
+			for b := 0; b < n; b++ {
+				for c := 0; c < n; c++ {
+					if m[a][b] >= 0 && m[b][c] >= 0 {
+						bad := m[a][c] < 0 || ((m[a][b] > 0 || m[b][c] > 0) && m[a][c] <= 0)
+						if bad {
+							o := withPair(caseObj, a, b)
+							o["k"] = c
+							rep("transitivity:"+keyBase, fmt.Sprintf("%s: c%d>=c%d (%d), c%d>=c%d (%d) but cmp(c%d,c%d)=%d", oc.name, a, b, m[a][b], b, c, m[b][c], a, c, m[a][c]), o)
+						}
 					}
+					rec.Eval()
 				}
-				rec.Eval()
 			}
 		}
+	} else {
+		rec.Class("mixed_kinds_deep:consistency_laws_not_required")
 	}
-	// maximality of the selected candidate for every permutation
+	// the selected candidate for every permutation: a member, and (consistency) maximal
 	nperm := 0
 	distinctWinners := map[int]bool{}
+	nMax := 0
+	for i := 0; i < n; i++ {
+		isMax := true
+		for j := 0; j < n; j++ {
+			if m[j][i] > 0 {
+				isMax = false
+			}
+		}
+		if isMax {
+			nMax++
+		}
+	}
 	permutations(n, func(p []int) bool {
 		nperm++
-		idx, ok := oc.pref(p)
-		rec.Eval()
-		if !ok {
-			rec.Fail(rt, "preferred-not-a-candidate:"+keyBase, fmt.Sprintf("selection over permutation %v returned a value that is not one of the candidates", p), caseObj)
-			return false
+		idx, ok := selectionLaw(rep, rec, oc, m, p, keyBase, caseObj, opts.consistency)
+		if idx >= 0 {
+			distinctWinners[idx] = true
 		}
-		distinctWinners[idx] = true
-		for c := 0; c < n; c++ {
-			if m[c][idx] > 0 {
-				o := withPair(c, idx)
-				o["permutation"] = fmt.Sprint(p)
-				rec.Fail(rt, "preferred-not-maximal:"+keyBase, fmt.Sprintf("selection over permutation %v returned c%d, but %s(c%d,c%d) > 0", p, idx, oc.name, c, idx), o)
-				return false
-			}
-			if want, ok := oc.ref(c, idx); ok && want > 0 {
-				o := withPair(c, idx)
-				o["permutation"] = fmt.Sprint(p)
-				rec.Fail(rt, "preferred-beaten-in-reference:"+keyBase, fmt.Sprintf("selection over permutation %v returned c%d, but the statement prefers c%d", p, idx, c), o)
-				return false
-			}
-		}
-		return true
+		return ok
 	})
 	rec.ClassN("permutations_checked", nperm)
 	if len(distinctWinners) > 1 {
 		rec.Class("several_maximal_elements_selected_across_permutations")
+	}
+	if opts.consistency && n >= 3 && nMax >= 2 {
+		rec.Class("set_with_two_or_more_equal_maxima")
 	}
 	for i := 0; i < n; i++ {
 		for j := i + 1; j < n; j++ {
 			if m[i][j] == 0 {
 				rec.Class("pair_equivalent")
 			}
-		}
-	}
-	// non-triviality inputs
-	for i := 0; i < n; i++ {
-		for j := i + 1; j < n; j++ {
 			if oc.tie != nil && oc.tie(i, j) {
 				st.tieOnPrimary = true
 			}
 		}
 	}
-	return st
+	return st, m
+}
+
+// sweepC41 enumerates a small universe exhaustively: every multiset of three candidate
+// types, and sets of five with two equal maxima, for a shallow and a deep fork, all
+// arrival orders. Types: height 5|6 x window count 0 | 1 | window size | 0 with blocks
+// just outside both window edges x VRF absent | 00..00 | 00..01 | ff..ff.
+func sweepC41(rec *evi.Recorder) {
+	rep := func(key, what string, cs any) bool { return rec.Violation("sweep:"+key, what, cs) }
+	const F, W, K = 100, 3, 2
+	slotVariants := [][]uint64{{}, {F + 1}, {F + 1, F + 2, F + 3}, {F, F + 4}}
+	vrfs := [][]byte{nil, make([]byte, 64), append(make([]byte, 63), 1), bytes.Repeat([]byte{0xff}, 64)}
+	type typ struct {
+		block uint64
+		sv    int
+		vrf   int
+	}
+	var types []typ
+	for b := uint64(5); b <= 6; b++ {
+		for sv := range slotVariants {
+			for v := range vrfs {
+				types = append(types, typ{b, sv, v})
+			}
+		}
+	}
+	serial := uint64(0)
+	mk := func(t typ) *cand {
+		serial++
+		c := &cand{kind: kindLibWindow, block: t.block, slot: 1000 + serial, vrf: append([]byte(nil), vrfs[t.vrf]...), slots: append([]uint64(nil), slotVariants[t.sv]...)}
+		if vrfs[t.vrf] == nil {
+			c.vrf = nil
+		}
+		c.vrfSnap = append([]byte(nil), c.vrf...)
+		c.slotsSnap = append([]uint64(nil), c.slots...)
+		c.tip = lc.NewWindowedChainTip(c.slot, c.block, c.vrf, append([]uint64(nil), c.slots...))
+		return c
+	}
+	nSets := 0
+	for _, tipBlock := range []uint64{10 + K, 10 + K + 1} { // depth k (shallow) and k+1 (deep)
+		cfg := selCfg{kind: kindLibWindow, k: K, window: W, fork: lc.ForkPoint{Slot: F, BlockNumber: 10}, tipBlock: tipBlock, vrfMode: "sweep"}
+		sel := lc.NewPraosChainSelectorWithWindow(K, W) // one long-lived selector per configuration
+		for a := 0; a < len(types); a++ {
+			for b := a; b < len(types); b++ {
+				for c := b; c < len(types); c++ {
+					checkTipSet(rep, rec, sel, cfg, nil, []*cand{mk(types[a]), mk(types[b]), mk(types[c])})
+					nSets++
+				}
+			}
+			// two distinct tips with the keys of type a (equal maxima or equal non-maxima) among three others
+			others := []typ{{4, 2, 1}, types[(a+7)%len(types)], types[(a+13)%len(types)]}
+			set := []*cand{mk(others[0]), mk(types[a]), mk(others[1]), mk(types[a]), mk(others[2])}
+			checkTipSet(rep, rec, sel, cfg, nil, set)
+			nSets++
+		}
+	}
+	rec.SetExtra("n_sweep_sets", nSets)
+	rec.SetExtra("sweep_universe", fmt.Sprintf("%d candidate types, all multisets of 3 and %d sets of 5, fork depth k and k+1, window %d", len(types), 2*len(types), W))
 }
 
 // ---------------------------------------------------------------------------
@@ -682,7 +941,7 @@ func (f *hFragment) BlockCountInWindow(w uint64) uint64 {
 	return countInWindow(f.slots, f.inter, w)
 }
 
-func checkGenesisFragments(rt *rapid.T, rec *evi.Recorder) {
+func checkGenesisFragments(rt *rapid.T, rec *evi.Recorder, rep rep41) {
 	k := uint64(rapid.IntRange(0, 3000).Draw(rt, "k"))
 	window := uint64(rapid.IntRange(0, 40).Draw(rt, "window"))
 	useF := rapid.Bool().Draw(rt, "windowFromF")
@@ -728,7 +987,7 @@ func checkGenesisFragments(rt *rapid.T, rec *evi.Recorder) {
 	caseObj := map[string]any{"set": setDesc}
 	if gs.DefaultSyncThreshold() != window {
 		// window derivation 3k/f (ceiling) is documented; a mismatch makes the density window wrong
-		rec.Fail(rt, "genesis:window", fmt.Sprintf("selector window %d, expected %d", gs.DefaultSyncThreshold(), window), caseObj)
+		rep("genesis:window", fmt.Sprintf("selector window %d, expected %d", gs.DefaultSyncThreshold(), window), caseObj)
 	}
 	oc := orderCheck{
 		name: "GenesisSelector.Compare",
@@ -747,6 +1006,12 @@ func checkGenesisFragments(rt *rapid.T, rec *evi.Recorder) {
 				in[x] = frs[o]
 			}
 			got := gs.Preferred(in)
+			for x, o := range order {
+				if in[x] != frs[o] {
+					rep("argument-mutated:candidates:GenesisSelector.Preferred", fmt.Sprintf("Preferred changed the caller's slice (position %d of %v)", x, order), caseObj)
+					break
+				}
+			}
 			for i := range frs {
 				if frs[i] == got {
 					return i, true
@@ -755,7 +1020,15 @@ func checkGenesisFragments(rt *rapid.T, rec *evi.Recorder) {
 			return -1, false
 		},
 	}
-	runOrderChecks(rt, rec, oc, n, "genesis-fragments", caseObj)
+	_, first := runOrderChecks(rep, rec, oc, n, "genesis-fragments", caseObj, orderOpts{consistency: true})
+	_ = gs.Preferred(nil)
+	for i := 0; i < n; i++ {
+		for j := 0; j < n; j++ {
+			if again := sgn(oc.cmp(i, j)); again != first[i][j] {
+				rep("history:GenesisSelector.Compare", fmt.Sprintf("Compare(c%d,c%d) was %d, then %d after the selection calls", i, j, first[i][j], again), caseObj)
+			}
+		}
+	}
 	rec.Class("kind:genesis_fragments")
 	if libFrag {
 		rec.Class("genesis:lib_fragment")
